@@ -152,14 +152,31 @@ def parseOp (t : String) : Option Op :=
   | ["e"] => some .expire
   | _ => none
 
-/-- run the ops, collecting the answers; stops at the first panic like the harness -/
-def runLine (cd : Codec) (dom : List Nat) : Srv → List Op → List String → String
+/-- the pruning task with the two timeouts replaced (the `dnsexpire` component shortens the package variables) -/
+def retimed (ct ot : Nat) : List (Nat × Nat × List (Nat × Bool)) :=
+  SA.Gen.expiryLoops.map fun l =>
+    (l.1, (if l.2.1 = SA.Gen.connectionTimeout then ct else if l.2.1 = SA.Gen.oldConnectionTimeout then ot else l.2.1), l.2.2)
+
+/-- real time passes: the pruning task runs at every multiple of the sweep interval since the listener was created
+    (fuel = dt) -/
+def sleepSweep (loops : List (Nat × Nat × List (Nat × Bool))) : Nat → Srv → Nat → Srv
+  | 0, σ, target => { σ with now := target }
+  | fuel + 1, σ, target =>
+    let next := (σ.now / SA.Gen.sweepInterval + 1) * SA.Gen.sweepInterval
+    if next ≤ target then sleepSweep loops fuel (expireWith loops { σ with now := next }) target
+    else { σ with now := target }
+
+/-- run the ops, collecting the answers; stops at the first panic like the harness.  `timed = some loops`: `s:<n>` ops
+    are real sleeps during which the pruning task runs. -/
+def runLine (cd : Codec) (dom : List Nat) (timed : Option (List (Nat × Nat × List (Nat × Bool)))) : Srv → List Op → List String → String
   | σ, [], acc => ";".intercalate acc.reverse ++ "|" ++ renderSnapshot σ
   | σ, op :: ops, acc =>
-    match stepAns cd dom σ op with
+    match (match timed, op with
+           | some loops, .tick dt => Res.ok (sleepSweep loops dt σ (σ.now + dt), none)
+           | _, _ => stepAns cd dom σ op) with
     | .panic => ";".intercalate ("PANIC" :: acc).reverse ++ "|"
     | .ok (σ', a) =>
-      runLine cd dom σ' ops (match a with | some x => renderAns x :: acc | none => acc)
+      runLine cd dom timed σ' ops (match a with | some x => renderAns x :: acc | none => acc)
 
 def splitAtDashes (toks : List String) : List String × List String :=
   (toks.takeWhile (· ≠ "--"), (toks.dropWhile (· ≠ "--")).drop 1)
@@ -176,6 +193,11 @@ def handle (toks : List String) : String :=
       let (orc, opsT) := splitAtDashes toks
       match opsT.mapM parseOp with
       | none => "bad-op"
-      | some ops => runLine (oracleCodec (parseOracle orc)) dom Srv.init ops []
+      | some ops =>
+        let timed := orc.findSome? fun t =>
+          match t.splitOn ":" with
+          | ["T", c, o] => (do pure (retimed (← c.toNat?) (← o.toNat?)) : Option _)
+          | _ => none
+        runLine (oracleCodec (parseOracle orc)) dom timed Srv.init ops []
 
 end SA.DnsServer
